@@ -26,19 +26,21 @@ KINDS = {
     'e[p=${1} q=${1:d}]': dict(sc=False, attrs=[[1], [1]], text=None),
     'e[p=${2} q=${1}]': dict(sc=False, attrs=[[2], [1]], text=None),
     'f{${1:a} ${3} ${1}}': dict(sc=False, attrs=[], text=[1, 3, 1]),
-    'g[id="${1:a}" class="${1:b}" p]': dict(sc=False, attrs=[[1], [1], 'caret'], text=None),
+    # (with comments enabled the HTML formatter repeats the id and class values after the element: two more values)
+    'g[id="${1:a}" class="${1:b}" p]': dict(sc=False, attrs=[[1], [1], 'caret'], text=None, comment_values=[[1], [1]]),
     # multi-line text whose largest field index is not on its last line
     'm{${2:a} ${1}\nb ${1:c}}': dict(sc=False, attrs=[], text=[2, 1, 1]),
 }
 IMPLICIT_KINDS = ['x', 'x{t}', 'y[p]', 'q[p=""]', 'z[p q=v]', 'w[p q]/', 'k/']
-POS_KINDS = ['x', 'x{t}', 'y[p]', 'q[p=""]', 'w[p q]/', 'f{${1:a} ${3} ${1}}', 'p{l1\nl2}', 'a', 'img', 'p{l1\n}']    # ...text ending in its only line break
+POS_KINDS = ['x', 'x{t}', 'y[p]', 'q[p=""]', 'w[p q]/', 'f{${1:a} ${3} ${1}}', 'p{l1\nl2}', 'a', 'img', 'p{l1\n}', 'x{\U0001f389 \U0001d4d0}']    # ...text ending in its only line break; characters outside the BMP (one code point each, two UTF-16 units)
 MARKUP_SYNTAXES = ['html', 'xml', 'jsx', 'haml', 'pug', 'slim']
 STYLE_ABBRS = ['p', 'bd', 'p+bd', '@kf', 'trf:rx', 'lg', 'p10+m5-a!', '@ff', 'c#f.5']
 STYLE_SYNTAXES = ['css', 'sass', 'stylus']
 LAYOUTS = [dict(zip(('output.newline', 'output.indent', 'output.baseIndent'), v))
            for v in itertools.product(('\n', '\r\n', '\r'), ('\t', '    '), ('', '  ', '\t\t'))]
 # numbering is checked without formatting, with it, and with every leaf formatted (the caret is then written on an inner line)
-NUM_FORMATS = [{'output.format': False}, {'output.format': True}, {'output.format': True, 'output.formatLeafNode': True}]
+NUM_FORMATS = [{'output.format': False}, {'output.format': True}, {'output.format': True, 'output.formatLeafNode': True},
+               {'output.format': False, 'comment.enabled': True}]
 FIXED_WRAP = ['ul>li*', 'x*>y', 'p>{$#}', 'x[t=$#]*', 'y']
 BOUNDS = {
     'quick': dict(num=[(1, 1, 1), (2, 1, 1), (3, 0, 0)], pos=[(1, 0, 1), (2, 0, 0)]),
@@ -51,7 +53,7 @@ def describe(tier):
     b = BOUNDS[tier]
     return dict(
         rule='Numbering: skeletons with (elements, groups, repeaters) in %s x all kind assignments from %s, syntaxes html and pug, '
-             'format off / on / on with formatLeafNode. Positions: skeletons in %s x kinds %s x syntaxes %s x all 18 combinations of newline {\\n, \\r\\n, \\r} x indent '
+             'format off / on / on with formatLeafNode / off with comments enabled. Positions: skeletons in %s x kinds %s x syntaxes %s x all 18 combinations of newline {\\n, \\r\\n, \\r} x indent '
              '{tab, 4 spaces} x baseIndent {"", 2 spaces, 2 tabs} x output.text identity / wrapping variant, plus %d wrap-text '
              'abbreviations with 2 lines and %d stylesheet abbreviations in %s. Transition = one production / one option toggle.' % (
                  b['num'], list(KINDS), b['pos'], POS_KINDS, MARKUP_SYNTAXES, len(FIXED_WRAP), len(STYLE_ABBRS), STYLE_SYNTAXES),
@@ -111,7 +113,7 @@ class Unspecified(Exception):
     pass
 
 
-def values_in_document_order(tree, out=None, syntax='html'):
+def values_in_document_order(tree, out=None, syntax='html', comment=False):
     """list of values in output order; value = 'caret' (one implicit tabstop) or list of written field indices"""
     if out is None:
         out = []
@@ -132,9 +134,11 @@ def values_in_document_order(tree, out=None, syntax='html'):
                     out.append(k['text'])
         elif leaf and not k['sc']:
             out.append('caret')
-        values_in_document_order(ch, out, syntax)
+        values_in_document_order(ch, out, syntax, comment)
         if after:
             out.append(after)
+        if comment and syntax == 'html':
+            out.extend(list(v) for v in k.get('comment_values', []))
     return out
 
 
@@ -146,7 +150,7 @@ def check_numbering(seq, labels, syntax, fmt=0):
         return abbr, ('exception:%s' % type(e).__name__, str(e)[:120])
     tree = M.unroll(M.denote(seq, labels))
     try:
-        vals = values_in_document_order(tree, None, syntax)
+        vals = values_in_document_order(tree, None, syntax, bool(NUM_FORMATS[fmt].get('comment.enabled')))
     except Unspecified:
         return abbr, 'unspecified'
     obs = [r[5] for r in recs if r[0] == 'f']
